@@ -830,8 +830,22 @@ func (s *TreeShapeListener) ExitTable(ctx *parser.TableContext) {
 			}
 		}
 		if len(pks) > 0 {
-			rel.PrimaryKey = &sysl.Type_Relation_Key{
-				AttrName: pks,
+			// a table may be declared in several blocks: extend the key found so far instead of
+			// replacing it with the ~pk fields of the block being left
+			if rel.PrimaryKey == nil {
+				rel.PrimaryKey = &sysl.Type_Relation_Key{}
+			}
+			for _, name := range pks {
+				known := false
+				for _, have := range rel.PrimaryKey.AttrName {
+					if have == name {
+						known = true
+						break
+					}
+				}
+				if !known {
+					rel.PrimaryKey.AttrName = append(rel.PrimaryKey.AttrName, name)
+				}
 			}
 		}
 	}
